@@ -3,8 +3,11 @@ package ipnisync
 import (
 	"bytes"
 	"context"
+	"crypto/sha256"
+	"crypto/sha512"
 	"io"
 	"net/http"
+	"strings"
 
 	"github.com/ipfs/go-cid"
 	cidlink "github.com/ipld/go-ipld-prime/linking/cid"
@@ -18,10 +21,10 @@ func VerifC02_FetchBlock() {
 	// the requested CID: raw codec, hash function and digest length chosen; the
 	// genuine content is the concrete block "ok" so that the CID text is concrete
 	good := []byte("ok")
-	code := []uint64{multihash.SHA2_256, multihash.SHA2_512, multihash.DBL_SHA2_256}[verif_Choose("hashFunction", 0, 2)]
+	code := []uint64{multihash.SHA2_256, multihash.SHA2_512, multihash.DBL_SHA2_256, multihash.IDENTITY}[verif_Choose("hashFunction", 0, 3)]
 	mhLen := []int{-1, 20, 16}[verif_Choose("digestLength", 0, 2)]
 	mh, err := multihash.Sum(good, code, mhLen)
-	verif_Assume(err == nil)
+	verif_Assume(err == nil) // (the identity "hash" cannot be truncated)
 	c := cid.NewCidV1(cid.Raw, mh)
 	key := cidlink.Link{Cid: c}.Binary()
 
@@ -137,4 +140,56 @@ func VerifC02_BrokenBody() {
 	ferr2 := s.fetchBlock(context.Background(), c)
 	stored, committed = st.m[key]
 	verif_Assert(ferr2 == nil && committed && bytes.Equal(stored, good), "once the publisher answers completely the block is stored intact")
+}
+
+// C02: one sync client fetching several blocks whose CIDs use DIFFERENT hash
+// functions (the subscriber reuses a client across blocks and syncs): each
+// block is verified under its own CID's function and digest length, whatever
+// was fetched before. The adversarial bodies include the value whose digest
+// under the FIRST block's function equals the digest the second CID carries.
+func VerifC02_MixedHashFunctions() {
+	codes := []uint64{multihash.SHA2_256, multihash.DBL_SHA2_256, multihash.SHA2_512, multihash.IDENTITY}
+	code1 := codes[verif_Choose("firstHashFunction", 0, 3)]
+	code2 := codes[verif_Choose("secondHashFunction", 0, 3)]
+	good1, good2 := []byte("first"), []byte("second block")
+	mhLen := func(code uint64) int {
+		if code == multihash.SHA2_512 {
+			return 32 // truncated to the length of the 256-bit functions
+		}
+		return -1
+	}
+	mh1, err := multihash.Sum(good1, code1, mhLen(code1))
+	verif_Assume(err == nil)
+	mh2, err := multihash.Sum(good2, code2, mhLen(code2))
+	verif_Assume(err == nil)
+	c1, c2 := cid.NewCidV1(cid.Raw, mh1), cid.NewCidV1(cid.Raw, mh2)
+	// candidate bodies for the second request
+	inner := sha256.Sum256(good2)    // sha2-256 preimage of a dbl-sha2-256 digest
+	inner512 := sha512.Sum512(good2) // a sha2-512 digest
+	d2, derr := multihash.Decode(mh2)
+	verif_Assume(derr == nil)
+	bodies := [][]byte{good2, inner[:], inner512[:32], d2.Digest, good1}
+	body2 := bodies[verif_Choose("secondBody", 0, len(bodies)-1)]
+
+	st := &vStore{m: map[string][]byte{}}
+	rt := &vRT{fn: func(req *http.Request) (*http.Response, error) {
+		if strings.HasSuffix(req.URL.Path, "/"+c1.String()) {
+			return vResp(200, good1), nil
+		}
+		return vResp(200, body2), nil
+	}}
+	s := &Syncer{client: &http.Client{Transport: rt}, rootURL: vURL("http://pub.example/ipni/v1/ad"), sync: &Sync{lsys: vLsys(st)}}
+	verif_Assert(s.fetchBlock(context.Background(), c1) == nil, "the genuine first block is accepted")
+	ferr := s.fetchBlock(context.Background(), c2)
+	verif_Reach("fetched")
+	stored, committed := st.m[cidlink.Link{Cid: c2}.Binary()]
+	sum, serr := multihash.Sum(body2, c2.Prefix().MhType, c2.Prefix().MhLength)
+	matches := serr == nil && bytes.Equal(sum, c2.Hash())
+	if committed {
+		verif_Assert(matches && bytes.Equal(stored, body2), "a committed block hashes to the CID it is stored under, under that CID's own hash function")
+	}
+	verif_Assert((ferr == nil) == matches, "the second block is accepted exactly when it hashes to its CID under the CID's own function")
+	if bytes.Equal(body2, good2) {
+		verif_Assert(ferr == nil && committed, "the genuine second block is accepted whatever was fetched before")
+	}
 }
